@@ -31,6 +31,17 @@ ENVIRON = {
     "QUERY_STRING": "x=1",
     "HTTP_HOST": "srv.example:8080",
 }
+# request environs (WSGI native strings: UTF-8 bytes shown as latin-1) - case field "env" indexes
+# this list. 1..3 carry a non-ASCII script name / path / query / host, which matters for Location
+# autocorrection: the relative Location is joined with the *current request URL*.
+ENVIRONS = [
+    ENVIRON,
+    {"wsgi.url_scheme": "https", "SERVER_NAME": "x", "SERVER_PORT": "443", "SCRIPT_NAME": "/caf\xc3\xa9", "PATH_INFO": "/\xc3\xbcber/edit me", "QUERY_STRING": "q=\xc3\xa4", "HTTP_HOST": "b\xfccher.example"},
+    {"wsgi.url_scheme": "http", "SERVER_NAME": "b\xfccher.example", "SERVER_PORT": "80", "SCRIPT_NAME": "", "PATH_INFO": "/\xe6\x97\xa5\xe6\x9c\xac/", "QUERY_STRING": ""},
+    {"wsgi.url_scheme": "http", "SERVER_NAME": "srv.example", "SERVER_PORT": "80", "SCRIPT_NAME": "/\xc3\xa9", "PATH_INFO": "", "QUERY_STRING": "a=b", "HTTP_HOST": "srv.example"},
+]
+# Location values: absolute, path-absolute, and relative forms that keep (part of) the base path
+LOCATIONS = ["edit", "?page=2", "", "#frag", "sub/\u00e9", "./", "../x", "/abs", "//other.example/p", "http://example.com/\u00e9?q=\u00fc", "/a b", "x y?z=\u00e4"]
 
 
 def item_bytes(it):
@@ -131,8 +142,11 @@ class WsgiStream(Stream):
         {"status": ["i", 200], "method": "HEAD", "dp": 1, "body": ["F", [["b", "616263"]]], "take": None, "ncb": 1, "getdata": 0, "hinit": [], "ops": [], "autocorrect": 0},
     ]
 
-    def mk(self, status, method, body, ops=(), hinit=(), dp=0, take=None, ncb=0, getdata=0, autocorrect=0):
-        return {"status": status, "method": method, "dp": dp, "body": body, "take": take, "ncb": ncb, "getdata": getdata, "hinit": [list(p) for p in hinit], "ops": [list(o) for o in ops], "autocorrect": autocorrect}
+    def mk(self, status, method, body, ops=(), hinit=(), dp=0, take=None, ncb=0, getdata=0, autocorrect=0, env=0):
+        c = {"status": status, "method": method, "dp": dp, "body": body, "take": take, "ncb": ncb, "getdata": getdata, "hinit": [list(p) for p in hinit], "ops": [list(o) for o in ops], "autocorrect": autocorrect}
+        if env:
+            c["env"] = env
+        return c
 
     def cases(self, rng, tier):
         quick = tier == "quick"
@@ -146,12 +160,20 @@ class WsgiStream(Stream):
         sts = [["i", 200], ["i", 204], ["i", 304], ["i", 100], ["s", "404 Not Found"]] if quick else self.STATUSES
         for ops, hinit, status, method, body, ac in itertools.product(self.OPSEQS, self.HINITS, sts, ("GET", "HEAD"), (self.BODIES[1], self.BODIES[4], self.BODIES[7]), (0, 1)):
             yield self.mk(status, method, body, ops=ops, hinit=hinit, ncb=1, autocorrect=ac)
-        allops = [op for seq in self.OPSEQS for op in seq]
+        # Location autocorrection: every request environ x every Location form x autocorrect on/off
+        for env, loc, ac, how in itertools.product(range(len(ENVIRONS)), LOCATIONS, (1, 0), ("set", "init", "add2")):
+            if how == "set":
+                yield self.mk(["i", 302], "GET", self.BODIES[1], ops=[["set", "Location", loc]], autocorrect=ac, env=env)
+            elif how == "init":
+                yield self.mk(["i", 201], "POST", self.BODIES[4], hinit=[["location", loc]], autocorrect=ac, env=env)
+            else:
+                yield self.mk(["s", "303 See Other"], "HEAD", self.BODIES[0], ops=[["add", "Location", "/first"], ["add", "location", loc], ["add", "Content-Location", loc]], autocorrect=ac, env=env)
+        allops = [op for seq in self.OPSEQS for op in seq] + [["set", "Location", loc] for loc in LOCATIONS]
         for _ in range(1500 if quick else 30000):
             dp = rng.random() < 0.15
             body = rng.choice(self.BYTES_BODIES if dp else self.BODIES)
             ops = [rng.choice(allops) for _ in range(rng.randrange(0, 5))]
-            yield self.mk(rng.choice(self.STATUSES), rng.choice(("GET", "HEAD", "POST")), body, ops=ops, hinit=rng.choice(self.HINITS[:3]), dp=int(dp), take=rng.choice([None, None, 0, 1, 2]), ncb=rng.randrange(0, 3), getdata=int((not dp) and rng.random() < 0.3), autocorrect=rng.randrange(2))
+            yield self.mk(rng.choice(self.STATUSES), rng.choice(("GET", "HEAD", "POST")), body, ops=ops, hinit=rng.choice(self.HINITS[:3]), dp=int(dp), take=rng.choice([None, None, 0, 1, 2]), ncb=rng.randrange(0, 3), getdata=int((not dp) and rng.random() < 0.3), autocorrect=rng.randrange(2), env=rng.randrange(len(ENVIRONS)))
 
     # ----- real code
     def build_body(self, case, log):
@@ -221,7 +243,7 @@ class WsgiStream(Stream):
         if case["getdata"]:
             r.get_data()
         r.autocorrect_location_header = bool(case["autocorrect"])
-        environ = dict(ENVIRON, REQUEST_METHOD=case["method"])
+        environ = dict(ENVIRONS[case.get("env", 0)], REQUEST_METHOD=case["method"])
         # the opaque URL conversions, by the same library calls get_wsgi_headers makes
         locs = r.headers.getlist("Location")
         if locs:
@@ -344,7 +366,7 @@ class WsgiStream(Stream):
             return real_out[:40]
         code = info["status_code"]
         cls = "1xx" if 100 <= code < 200 else str(code) if code in (204, 304) else "other"
-        return f"{case['body'][0]} {case['method']} {cls} dp={case['dp']}"
+        return f"{case['body'][0]} {case['method']} {cls} dp={case['dp']} env={case.get('env', 0)} ac={case['autocorrect']}"
 
     def mutate(self, case, rng):
         for i in range(len(case["ops"])):
@@ -353,6 +375,9 @@ class WsgiStream(Stream):
             yield dict(case, status=st)
         for m in ("GET", "HEAD"):
             yield dict(case, method=m)
+        for e in range(len(ENVIRONS)):
+            for loc in LOCATIONS[:6]:
+                yield dict(case, env=e, autocorrect=1, ops=case["ops"] + [["set", "Location", loc]])
 
     def exhaustive(self, tier):
         return True
